@@ -6,33 +6,52 @@ import OrsoVerif.Generated.RowFns
 the row, and the way the 16 MiB guard of `as_bytes` is reached from a frame) keeps its result on the object
 (`self._cached_byte_size`).  The machine below runs a *sequence of calls on one object*; both steps are the
 statement-level translations of the working tree (`Gen.RowFns.as_bytes`, `Gen.RowFns.nbytes`), the state is the
-cached size.  `Props/C01.lean` proves that no history changes what `as_bytes` emits.
+cached size and (round 6) any record kept on the object; a history may also contain in-place edits of the lists / maps
+inside the row.  `Props/C01.lean` proves that no history changes what `as_bytes` emits: always the record of the items
+as they are at that moment.
 -/
 namespace RowObject
 open RowBytes RowCodec RowGlue
 
-/-- A call on the object; `ts` is what `time.time_ns()` answers during it. -/
+/-- A call on the object; `ts` is what `time.time_ns()` answers during it.  `edit items` (round 6) is not a call of orso:
+it is the caller changing a list or a map *inside* the row in place (`row[0].append(x)`, `row[1]["k"] = y`, `del …`) —
+legal, because a `Row` is an immutable tuple of values that need not be immutable; afterwards the same object has the
+items `items` (any new value is allowed here: more than in-place edits can produce).  Nothing of the object's other
+state (what `nbytes` / `as_bytes` keep on it) is touched by an edit: that is what makes a kept record stale. -/
 inductive Op where
   | asBytes (ts : Nat)
   | nbytes (ts : Nat)
+  | edit (items : List PyVal)
   deriving Repr
 
 /-- What a call ended in. -/
 inductive Res where
   | record (r : Except EncErr Bytes)
   | size (r : Except EncErr (Option Nat))
+  | edited
 
-/-- One call on a row object with the items `items` (`d`: has a `__dict__`), cached size `cached`. -/
-def step (d : Bool) (items : List PyVal) (cached : Option Nat) : Op → Res × Option Nat
-  | .asBytes ts => (.record (Gen.RowFns.as_bytes d cached ts items), cached)
+/-- The row object: its items as they are now, the cached size (`self._cached_byte_size`), the record kept on it (any
+other attribute `nbytes` / `as_bytes` assign; none on the tree as it is). -/
+structure Obj where
+  items : List PyVal
+  cached : Option Nat
+  kept : Option Bytes
+
+/-- a row object nothing has been done with yet -/
+def fresh (items : List PyVal) : Obj := ⟨items, none, none⟩
+
+/-- One call on a row object (`d`: it has a `__dict__`). -/
+def step (d : Bool) (o : Obj) : Op → Res × Obj
+  | .asBytes ts => (.record (Gen.RowFns.as_bytes d o.cached o.kept ts o.items), o)
   | .nbytes ts =>
-    let o := Gen.RowFns.nbytes d cached (Gen.RowFns.as_bytes d cached ts items)
-    (.size o.1, o.2)
+    let r := Gen.RowFns.nbytes d o.cached o.kept (Gen.RowFns.as_bytes d o.cached o.kept ts o.items)
+    (.size r.1, ⟨o.items, r.2.1, r.2.2⟩)
+  | .edit items => (.edited, ⟨items, o.cached, o.kept⟩)
 
 /-- The calls one after another, the state handed on. -/
-def run (d : Bool) (items : List PyVal) : Option Nat → List Op → List Res
+def run (d : Bool) : Obj → List Op → List Res
   | _, [] => []
-  | c, op :: ops => (step d items c op).1 :: run d items (step d items c op).2 ops
+  | o, op :: ops => (step d o op).1 :: run d (step d o op).2 ops
 
 /-- The size of the record of a row, or why there is none: the payload codec refuses, or the payload is past the cap. -/
 def sizeOf (items : List PyVal) : Except EncErr Nat :=
@@ -45,5 +64,31 @@ def sizeSpec (d : Bool) (items : List PyVal) : Except EncErr (Option Nat) :=
   match sizeOf items with
   | .error e => .error e
   | .ok n => if d then .ok (some n) else .error .attribute
+
+/-- what a sizing that ended in `r` leaves as the kept size: the size, or nothing when it raised -/
+def sizedTo : Except EncErr (Option Nat) → Option Nat
+  | .ok s => s
+  | .error _ => none
+
+/-- **What the calls must answer** — written without any state but the value of the object and the size it was given
+when it was first sized: `as_bytes` = the record of the items *as they are now* (`encodeRow`, a function of the items
+and the clock alone); `nbytes` = the size kept from the first successful sizing (orso/row.py:144-147 keeps it; an edit
+does not reset it — the size is a bookkeeping figure of `DataFrame.nbytes`, not part of C01), else the size of the record
+of the items as they are now. -/
+def spec (d : Bool) : List PyVal → Option Nat → List Op → List Res
+  | _, _, [] => []
+  | row, s, .asBytes ts :: ops => .record (encodeRow ts row) :: spec d row s ops
+  | row, some n, .nbytes _ :: ops => .size (.ok (some n)) :: spec d row (some n) ops
+  | row, none, .nbytes _ :: ops =>
+    .size (sizeSpec d row) :: spec d row (sizedTo (sizeSpec d row)) ops
+  | _, s, .edit row' :: ops => .edited :: spec d row' s ops
+
+/-- The items of the object after a history: those of the last edit, or the ones it was made with. -/
+def valueAfter (row : List PyVal) (ops : List Op) : List PyVal :=
+  ops.foldl (fun r op => match op with | .edit r' => r' | _ => r) row
+
+/-- every clock of the history fits the eight bytes the header has for it (`time.time_ns()` until the year 2554) -/
+def Clocks64 (ops : List Op) : Prop :=
+  ∀ op ∈ ops, match op with | .asBytes ts => ts < 2 ^ 64 | .nbytes ts => ts < 2 ^ 64 | .edit _ => True
 
 end RowObject
